@@ -1,6 +1,7 @@
 package main
 
 import (
+	"bytes"
 	"crypto/ed25519"
 	"encoding/base64"
 	"fmt"
@@ -545,6 +546,22 @@ func c02DuplicateMembers(c *mon.Ctx) {
 				c.Count("duplicate_member_verifications")
 				if err := gmsl.VerifyJSON(s.name, s.kid, s.pub, text); err == nil {
 					c.Failf("verify:accepts-mutation:duplicate-member-inserted", "VerifyJSON(%q,%q) accepts %q: a second member %q was inserted (%s) into the signed %q", s.name, s.kid, text, victim.Key, where, signed)
+				}
+			}
+			// the inserted copy spelled with an escape: the same name to every JSON reader
+			{
+				name := []rune(victim.Key)
+				if len(name) > 0 && name[0] < 0x10000 {
+					esc := fmt.Sprintf(`"\u%04x%s":"substituted",`, name[0], strings.ReplaceAll(strings.ReplaceAll(string(name[1:]), `\`, `\\`), `"`, `\"`))
+					if i := bytes.IndexByte(signed, '{'); i >= 0 {
+						text := append(append(append([]byte{}, signed[:i+1]...), esc...), signed[i+1:]...)
+						if _, _, perr := ref.Parse(text); perr == nil {
+							c.Count("duplicate_member_verifications")
+							if err := gmsl.VerifyJSON(s.name, s.kid, s.pub, text); err == nil {
+								c.Failf("verify:accepts-mutation:duplicate-member-inserted:escaped-name", "VerifyJSON(%q,%q) accepts %q: a second member %q, spelled with an escape, was inserted in front of the signed one", s.name, s.kid, text, victim.Key)
+							}
+						}
+					}
 				}
 			}
 			// signing an object that repeats a name
